@@ -599,13 +599,35 @@ ATTRS = ["a", "k", "zz", "A", "b", "z", "c", "keys", "items", "values", "get", "
 
 
 class RGen:
-    def __init__(self, rng):
+    def __init__(self, rng, pert=False):
         self.r = rng
+        self.pert = pert
+        self._nest = False
+
+    def _small(self, make):
+        """values stay small (X.size_bound): repeated repetitions / powers are regenerated"""
+        if self._nest:
+            return make()
+        self._nest = True
+        try:
+            for _ in range(10):
+                e = make()
+                if X.small_enough(e, self.pert):
+                    return e
+            return self.name(NUM)
+        finally:
+            self._nest = False
 
     def name(self, *pools):
         return ("N", self.r.choice([n for p in pools for n in p]))
 
     def num(self, d):
+        return self._small(lambda: self._num(d))
+
+    def any(self, d):
+        return self._small(lambda: self._any(d))
+
+    def _num(self, d):
         r = self.r
         if d <= 0 or r.random() < 0.35:
             return self.name(NUM) if r.random() < 0.7 else ("C", r.choice([0, 1, 2, 0.0, 1.0, 0.5, True, False]))
@@ -690,7 +712,7 @@ class RGen:
         dstar = None if r.random() < 0.4 else (self.name(MAP, ["ns0", "l0", "n0"]) if r.random() < 0.8 else ("D", [(("C", r.choice(["a", "q", "k"])), self.any(0))]))
         return ("callx", f, args, kw, star, dstar)
 
-    def any(self, d):
+    def _any(self, d):
         r = self.r
         if d <= 0:
             return self.name(NUM, STR, SEQ, MAP, OBJ, TRUTH) if r.random() < 0.8 else ("C", r.choice([0, 1, 1.0, True, "a", "k", "", None, 2.5]))
@@ -852,6 +874,11 @@ def entries_for(kind):
 
 
 def run_one(ctx, e, kind, ucls, entry, seeds, report=True):
+    done, rv = X.guarded(ctx, _run_one, ctx, e, kind, ucls, entry, seeds, report)
+    return rv if done else (True, [("skip",)])
+
+
+def _run_one(ctx, e, kind, ucls, entry, seeds, report=True):
     src = X.to_src(e)
     real = real_run(kind, ucls, entry, src, seeds)
     ref = ref_run(kind, ucls, entry, e, seeds)
